@@ -115,6 +115,9 @@ let parse_op tok =
   | "at" -> OAt (num 1) | "front" -> OFront | "back" -> OBack | "len" -> OLen | "empty" -> OEmpty
   | "str" -> OStr | "eq" -> OEq | "ne" -> ONe
   | "itf" | "citf" -> OItF | "itr" | "citr" -> OItR
+  | "it" | "rit" ->
+      let k = match a.(2) with "inc" -> KInc | "dec" -> KDec | "add" -> KAdd | "sub" -> KSub | x -> raise (Bad_op x) in
+      OIt (nm = "rit", num 1, k, num 3)
   | _ when String.length nm > 2 && nm.[0] = 'F' ->
       let us = String.index nm '_' in
       let fam = family_of (String.sub nm 1 (us - 1)) in
@@ -139,6 +142,10 @@ let ret_str modeD = function
   | RIter v -> if modeD then "_" else if N.eqb v nPOS then "end" else string_of_int (int_of_n v)
   | RCopy (k, l) -> string_of_int (int_of_n k) ^ "," ^ hex_of_bytes l
   | RExc e -> "E:" ^ err_name e
+  | RItD (v, c) ->
+      if N.eqb v nPOS then "end"
+      else string_of_int (int_of_n v) ^ "," ^
+           (match c with Some b -> Printf.sprintf "%02x" (int_of_n b land 255) | None -> "E")
 
 let state_str s =
   Printf.sprintf "%d;%d;%s;ok" (int_of_n s.len) (int_of_n (cstrlen s.buf)) (hex_of_bytes (abs s))
